@@ -158,6 +158,7 @@ bool containsCall(const Node& n) { if (n.k == K::FuncCall) return true; for (aut
 
 // ------------------------------------------------------------------------------------------------
 // C03
+std::vector<Node> arityFamily(); std::vector<Node> curated();
 void run_types(Ctx& c, const Setup& setup, const rsgen::Generator& gen, int depth) {
   ImplEnv env(setup);
   uint64_t i = 0;
@@ -220,7 +221,7 @@ void run_types(Ctx& c, const Setup& setup, const rsgen::Generator& gen, int dept
     if (i % 7919 == 5) c.rep.sample(rsast::render(T, RenderOpt{}).text + (modelOk ? "  :  " + mr.type.str() : "  :  ill-typed (" + mr.why + ")"));
     c.done();
   };
-  try { gen.scopeSkeletons(static_cast<int>(c.opt->num("scopebudget", 6)), one); gen.closedStream(depth, one); gen.imperativeChains(one, 2); streamDefinitions(gen, one); } catch (const StopEnumeration&) {}
+  try { for (auto& n : arityFamily()) one(Node(n)); for (auto& n : curated()) one(Node(n)); gen.scopeSkeletons(static_cast<int>(c.opt->num("scopebudget", 6)), one); gen.closedStream(depth, one); gen.imperativeChains(one, 2); streamDefinitions(gen, one); } catch (const StopEnumeration&) {}
 }
 
 
@@ -390,6 +391,37 @@ std::vector<Node> curated() {
   return out;
 }
 
+// Arity family (added after the round-4 seeds): tuples and products of arity 2 and 3 (flat and nested) meeting each other in every
+// binary position, and filters with EVERY index list of length <= 3 over {1,2,3} - single-parameter and per-component forms - over
+// arguments whose components have different structures. Most members are ill-typed in exactly one premise (arity or component).
+std::vector<Node> arityFamily() {
+  const std::string x = "\xC3\x97", B = "\xE2\x84\xAC";
+  const std::vector<std::string> tup = { "(D2, D2)", "(D2, D2, D2)", "(D2, D1)", "(D2, D1, D2)", "(1, 2)", "(1, 2, 3)", "((D2, D2), D2)", "(D2, (D2, D2))" };
+  const std::vector<std::string> sets = { "S1", "X1" + x + "X1", "X1" + x + "X1" + x + "X1", "(X1" + x + "X1)" + x + "X1", "X1" + x + "(X1" + x + "X1)", "S4", "X1" + x + B + "(X1)", B + "(X1)" + x + "X1",
+                                          "X1" + x + B + "(X1)" + x + "X1", "{(1, 2)}", "{(1, 2, 3)}", "X1", B + "(X1)", "D1", "S2", "{(D2, D1)}" };
+  const std::vector<std::string> fargs = { "S1", "X1" + x + "X1" + x + "X1", "(X1" + x + "X1)" + x + "X1", "S4", "X1" + x + B + "(X1)" + x + "X1", "{(1, 2, 3)}", B + "(X1)" + x + "X1" };
+  const std::vector<std::string> p2 = { "X1", B + "(X1)", "D1", "S1", "S2" }, p3 = { "X1", B + "(X1)", "D1" };
+  std::vector<std::string> texts;
+  for (auto& a : tup) for (auto& b : tup) { texts.push_back(a + "=" + b); texts.push_back(a + "\xE2\x89\xA0" + b); texts.push_back("{" + a + ", " + b + "}"); texts.push_back("R{a:=" + a + " | " + b + "}"); }
+  for (auto& a : tup) { texts.push_back("R{a:=" + a + " | (pr1(a), pr2(a))}"); texts.push_back("R{a:=" + a + " | (pr1(a), pr2(a), pr1(a))}"); }
+  for (auto& a : tup) for (auto& s : sets) { texts.push_back(a + "\xE2\x88\x88" + s); texts.push_back(a + "\xE2\x88\x89" + s); }
+  for (const char* op : { "=", "\xE2\x89\xA0", "\xE2\x8A\x86", "\xE2\x8A\x82", "\xE2\x8A\x84", "\xE2\x88\xAA", "\xE2\x88\xA9", "\\", "\xE2\x88\x86" })
+    for (auto& a : sets) for (auto& b : sets) texts.push_back((a.find(x) != std::string::npos ? "(" + a + ")" : a) + op + (b.find(x) != std::string::npos ? "(" + b + ")" : b));
+  std::vector<std::vector<int>> idx;
+  for (int a = 1; a <= 3; ++a) { idx.push_back({ a }); for (int b = 1; b <= 3; ++b) { idx.push_back({ a, b }); for (int c2 = 1; c2 <= 3; ++c2) idx.push_back({ a, b, c2 }); } }
+  for (auto& ix : idx) {
+    std::string head = "Fi"; for (size_t k = 0; k < ix.size(); ++k) head += (k ? "," : "") + std::to_string(ix[k]);
+    for (auto& arg : fargs) {
+      for (auto& p : sets) texts.push_back(head + "[" + p + "](" + arg + ")");
+      if (ix.size() == 2) for (auto& p : p2) for (auto& q : p2) texts.push_back(head + "[" + p + ", " + q + "](" + arg + ")");
+      if (ix.size() == 3) for (auto& p : p3) for (auto& q : p3) for (auto& r : p3) texts.push_back(head + "[" + p + ", " + q + ", " + r + "](" + arg + ")");
+    }
+  }
+  std::vector<Node> out; rl::Parser p;
+  for (auto& t : texts) { if (!p.Parse(t, rl::Syntax::MATH)) { fprintf(stderr, "HARNESS-ASSERT: arity-family text does not parse: %s\n", t.c_str()); exit(2); } out.push_back(fromImplTree(p.AST().Root())); }
+  return out;
+}
+
 bool isDeclaration(const Node& n) { return n.k == K::FuncDef || n.k == K::Define || n.k == K::Struct; }
 
 const char* errName(uint32_t eid) {
@@ -487,7 +519,7 @@ void run_eval(Ctx& c, const Setup& setup, const rsgen::Generator& gen, int depth
     if (i % 4001 == 3) c.rep.sample(text + "  under " + std::to_string(interps) + " interpretations");
     c.done();
   };
-  try { for (auto& n : curated()) one(Node(n)); gen.imperativeChains(one, static_cast<size_t>(c.opt->num("impblocks", compareModel ? 3 : 2)), static_cast<size_t>(c.opt->num("impcap", compareModel ? 5 : 3))); gen.closedStream(depth, one); } catch (const StopEnumeration&) {}
+  try { for (auto& n : curated()) one(Node(n)); for (auto& n : arityFamily()) one(Node(n)); gen.imperativeChains(one, static_cast<size_t>(c.opt->num("impblocks", compareModel ? 3 : 2)), static_cast<size_t>(c.opt->num("impcap", compareModel ? 5 : 3))); gen.closedStream(depth, one); } catch (const StopEnumeration&) {}
 }
 
 }  // namespace
